@@ -31,6 +31,11 @@ SingleClauses(ev) ==
     M_Member       |-> ev.acc => (IF ev.minus THEN MemberMinus(ev.new, ev.r) ELSE MemberPlus(ev.new, ev.l, ev.m, ev.r)),
     M_Length       |-> ev.acc => Len(ev.new) <= ev.maxlength,
     M_TimeOrdered  |-> ev.acc => Continuous(ev.new),
+    \* ordered in time, frame references: consecutive frames taken from one trajectory file step through it forwards when their
+    \* velocities are as written and backwards when they are flagged as reversed (a path turned around keeps this: order and flags flip together)
+    M_FileOrder    |-> ev.acc => \A k \in 1..(Len(ev.new) - 1) :
+                          (ev.newfile[k] = ev.newfile[k+1] /\ ev.newrev[k] = ev.newrev[k+1]) =>
+                             ev.newidx[k+1] = ev.newidx[k] + (IF ev.newrev[k] = 1 THEN -1 ELSE 1),
     M_Weight       |-> ev.acc => ev.weight_ok,
     M_ShootingPoint |-> (ev.acc /\ ev.kind = "sh") =>
                           /\ ev.sidx >= 2 /\ ev.sidx <= Len(ev.new) - 1
